@@ -83,6 +83,29 @@ Proof. exact ec2_key_in_model. Qed.
 Theorem c12_output_is_bytes : forall sha256 ad, Built sha256 ad -> bytes_ok (layout ad).
 Proof. exact built_bytes_ok. Qed.
 
+(** (13) every program of setter calls (as run by the correspondence harness) that starts from a
+    built value and stays within the quantifier yields a built value *)
+Theorem c12_setter_programs_are_built : forall sha256 steps ad ad',
+  Built sha256 ad -> Forall step_ok steps -> run_steps ad steps = Val ad' -> Built sha256 ad'.
+Proof. exact run_steps_built. Qed.
+
+(** (14) the exact well-formedness behind (1)-(4), (8), (12): [Built] values satisfy [ad_wf]
+    (32-byte hash of bytes, counter below 2^32, 16-byte aaguid, id of at most 65535 bytes, key and
+    extension map [cbor_wf] with nesting depth below ciborium's limit, key read back by coset as
+    itself, flag byte below 256 without reserved bits and with AT/ED matching the sections), and
+    (1), (2), (4), (8) hold for every [ad_wf] value, whatever its other flag bits *)
+Theorem c12_built_is_wf : forall sha256 ad, Built sha256 ad -> ad_wf ad.
+Proof. exact built_wf. Qed.
+
+Theorem c12_wf_encode_decode : forall ad, ad_wf ad ->
+  to_vec ad = Val (layout ad) /\ parse_authdata_spec (layout ad) = Some (fields_of ad) /\
+  from_slice (layout ad) = Val (normalise ad).
+Proof. exact wf_encode_decode. Qed.
+
+Theorem c12_wf_truncation_rejected : forall ad n, ad_wf ad ->
+  (n < length (layout ad))%nat -> from_slice (firstn n (layout ad)) = Err.
+Proof. exact from_slice_truncated. Qed.
+
 (** non-vacuity: a registration-style value (flags, attested credential data with an ES256 key,
     hmac-secret output) satisfies [Built]; its encoding has all three parts *)
 Definition ex_sha (_ : bytes) : bytes := repeat 7 32.
@@ -134,3 +157,7 @@ Print Assumptions c12_id_accepted.
 Print Assumptions c12_decoder_total.
 Print Assumptions c12_ec2_keys_in_model.
 Print Assumptions c12_output_is_bytes.
+Print Assumptions c12_setter_programs_are_built.
+Print Assumptions c12_built_is_wf.
+Print Assumptions c12_wf_encode_decode.
+Print Assumptions c12_wf_truncation_rejected.
